@@ -1017,3 +1017,18 @@ Proof.
   intros Hn Ha. unfold csc_nd_col. apply schema_RowsSortedByKernel.
   apply csc_nd_col_raw_NoDup; assumption.
 Qed.
+
+(* ------------------------------------------------------------------ pruning by token equality *)
+
+(* a mask `~equivalent(data, fill)` leaves no stored value equal (as a token) to the fill *)
+Theorem prune_by_equivalent_pruned_proof {V} (veqb : V -> V -> bool) (fill : V) (data : list V) :
+  forallb (fun v => negb (veqb v fill)) (prune_by (fun v => negb (veqb v fill)) data) = true.
+Proof.
+  apply forallb_forall. intros v Hv. apply filter_In in Hv. tauto.
+Qed.
+
+(* a mask `data != fill` does not: with a NaN fill nothing is dropped *)
+Theorem prune_by_ieee_neq_not_pruned_proof :
+  exists (nan fill : Z) (data : list Z),
+    forallb (fun v => negb (v =? fill)) (prune_by (fun v => ieee_neq nan v fill) data) = false.
+Proof. exists 99, 99, [10; 99; 25]. reflexivity. Qed.
